@@ -80,14 +80,14 @@ def gen(rng, kind, tier):
     else:
         amps = [0.0] * len(_amps(rng, cls, 0.1))
     return {"cls": cls, "pos": pos, "radius": R, "amps": amps, "dir_seed": int(rng.integers(1 << 30)),
-            "resolution": float(rng.uniform(0.1, 2.0))}
+            "resolution": float(rng.uniform(0.1, 2.0)), "route": common.pick_route(rng, 0.7)}
 
 
 def _mk(case):
     from .c03 import make_droplet
 
-    return make_droplet({"cls": case["cls"], "pos": case["pos"], "radius": case["radius"], "width": 0.5,
-                         "amps": case["amps"]})
+    return common.via(make_droplet({"cls": case["cls"], "pos": case["pos"], "radius": case["radius"], "width": 0.5,
+                                    "amps": case["amps"]}), case.get("route"))
 
 
 def _dirs(case, n=16):
